@@ -190,6 +190,8 @@ fn wait_turn(me: Turn) -> MutexGuard<'static, Option<Ctl>> {
 }
 
 /// The hook installed into fastrace.
+static ENGINE_CANCELABLE: std::sync::atomic::AtomicBool = std::sync::atomic::AtomicBool::new(false);
+
 pub fn hook(p: &Point) {
     let me = lt();
     match p {
@@ -824,6 +826,18 @@ pub fn exec_op(ctx: &mut WorkerCtx, op: &Op) {
             let obj = lock(&ADAPTERS).as_mut().unwrap().remove(a);
             drop(obj);
         }
+        Op::SetReporter => {
+            let before = CYCLES_ENDED.load(Ordering::SeqCst);
+            fastrace::set_reporter(
+                HarnessReporter,
+                Config::default().cancelable(ENGINE_CANCELABLE.load(Ordering::SeqCst)).report_interval(Duration::from_secs(3600)),
+            );
+            // the new background thread runs one cycle at once; let it finish before going on
+            let t = Instant::now();
+            while CYCLES_ENDED.load(Ordering::SeqCst) == before && t.elapsed() < Duration::from_secs(10) {
+                std::thread::sleep(Duration::from_millis(1));
+            }
+        }
         Op::Unwind { steps } => {
             set_result(ix, OpResult { t0, t1: now_ns(), sys0, closures: 0, kind: ResKind::None, done: true });
             let floor = ctx.frames.len();
@@ -1149,6 +1163,7 @@ impl Engine {
             cquit: false,
         });
         fastrace::verif::set_hook(Some(Arc::new(hook)));
+        ENGINE_CANCELABLE.store(cancelable, Ordering::SeqCst);
         if INSTALLED.fetch_add(1, Ordering::SeqCst) == 0 {
             let before = CYCLES_ENDED.load(Ordering::SeqCst);
             fastrace::set_reporter(
